@@ -164,6 +164,7 @@ func runC13(e *Env, r *core.Run) {
 			if !bytes.Equal(msg, keep) {
 				r.Fail("caller-buffer", "append-message-modified", "AppendMessage modified the caller's message buffer")
 			}
+			c13scribble(msg) // the caller's buffer is the caller's again: what was absorbed must not depend on it any more
 		case k <= 5:
 			p := ts[t.W(len(ts))]
 			l, n := label(), c13len(r, e.Thorough())
@@ -180,6 +181,7 @@ func runC13(e *Env, r *core.Run) {
 			if !bytes.Equal(dest, want) {
 				fail("extract", "T%d.ExtractBytes(n=%d) = %s, Merlin model gives %s", p.id, n, core.Hex8(dest), core.Hex8(want))
 			}
+			c13scribble(dest)
 		case k == 6 && len(ts) < 8:
 			p := ts[t.W(len(ts))]
 			ts = append(ts, c13T{p.it.Clone(), p.mt.Clone(), nextID})
@@ -211,6 +213,7 @@ func runC13(e *Env, r *core.Run) {
 			if !bytes.Equal(w, keep) {
 				r.Fail("caller-buffer", "witness-modified", "RekeyWithWitnessBytes modified the caller's witness buffer")
 			}
+			c13scribble(w)
 		case k == 9 && len(bs) > 0 && len(rs) < 4:
 			bi := t.W(len(bs))
 			b := bs[bi]
@@ -410,5 +413,12 @@ func c13ReadChunks(r *core.Run) {
 			r.Fail("model-divergence", "rng-read-twin", "RNG read of %d bytes = %s, model %s", n, core.Hex8(x), core.Hex8(want))
 			return
 		}
+	}
+}
+
+// c13scribble overwrites a buffer the caller owns after the library call it was passed to has returned.
+func c13scribble(b []byte) {
+	for i := range b {
+		b[i] ^= 0xa5
 	}
 }
